@@ -570,7 +570,7 @@ def run(ctx):
         d = direct_update_case(ctx, seed)
         if d:
             ctx.violation({"kind": "direct", "seed": seed}, d)
-    for i in range(ctx.scale(4, 30)):
+    for i in range(ctx.scale(3, 30)):
         sc = seed_scene() if i == 0 else random_scene(ctx.rng, i)
         if i == 0:
             ctx.samples.append({"op": "scene", "scene": sc})
